@@ -368,6 +368,7 @@ class Circuit:
         for n in list(self.forks.values()):
             if n in ios: continue
             if len(n.outs) != 1: continue
+            if len(n.ins) == 0 or n.ins[0] is None: continue  # undriven signal (e.g. left over from an unconnected pin): nothing to splice
             in_line = n.ins[0]
             out_line = n.outs[0]
             out_reader = out_line.reader
